@@ -32,6 +32,7 @@ CONSTANTS NP,          \* physical ports 1..NP  (NP >= 2)
 
 Ports   == 1..NP
 Absent  == 9           \* a port number below OFPP_MAX that the switch does not have
+BadAct  == 65000       \* stands for an action of a type the switch does not support
 PAll    == 65532       \* OFPP_ALL
 PNone   == 65535       \* OFPP_NONE
 Flows   == {"f1", "f2"}
@@ -48,7 +49,8 @@ VARIABLES ml, fl,        \* miss_send_len, config flags
           look, mat,     \* table lookup / matched counters
           prx, ptx,      \* per-port received / transmitted frames
           down,          \* per-port PORT_DOWN
-          pool,          \* [1..NB -> 0..NP]: ingress port of the buffered frame, 0 = free
+          pool,          \* [1..NB -> 0..NP+1]: ingress port of the buffered frame, 0 = free,
+                         \* NP+1 = limbo (see Limbo)
           pendq,         \* xids of requests received and not yet answered, oldest first
           last, hist     \* observation of the last action / all of them (export)
 
@@ -176,8 +178,16 @@ BadType(x) == AllUnch /\ Log("BadType", "BadType", [xid |-> x],
 Emits(q, inp) == q \in Ports /\ q # inp /\ ~down[q]
 TxAfter(q, inp) == IF Emits(q, inp) THEN [ptx EXCEPT ![q] = @ + 1] ELSE ptx
 
-OccSlots  == {s \in 1..NB : pool[s] # 0}
-FreeSlots == (1..NB) \ OccSlots
+\* A buffer named by a message whose action list the switch rejects (or may
+\* reject) is in LIMBO afterwards: OpenFlow 1.0 does not say whether the buffer
+\* was consumed, so the spec neither uses the slot again nor lets a frame be
+\* buffered (no table miss) while a slot is in limbo - the histories explored
+\* simply avoid the question (buffer life cycle proper is C18).
+Limbo     == NP + 1
+OccSlots  == {s \in 1..NB : pool[s] \in 1..NP}
+FreeSlots == {s \in 1..NB : pool[s] = 0}
+NoLimbo   == \A s \in 1..NB : pool[s] # Limbo
+Rejects(act) == act \in {BadAct, Absent}
 MinOf(S)  == CHOOSE v \in S : \A w \in S : v <= w
 
 \* A frame arrives on port p (not DOWN); k names the flow it would match
@@ -193,7 +203,8 @@ Rx(p, k) ==
           /\ ptx' = TxAfter(OutOf(k), p)
           /\ UNCHANGED pool
           /\ Log("Rx", "Rx", [xid |-> "-", p |-> p, k |-> k], None)
-     ELSE /\ UNCHANGED <<mat, fpk, ptx>>
+     ELSE /\ NoLimbo
+          /\ UNCHANGED <<mat, fpk, ptx>>
           /\ IF FreeSlots = {}
              THEN /\ UNCHANGED pool
                   /\ Log("Rx", "Rx", [xid |-> "-", p |-> p, k |-> k],
@@ -209,7 +220,6 @@ Rx(p, k) ==
 (* "bogus" (an id never issued).  act: output port number, 0 (no action) or *)
 (* "vendor" encoded as 65000 (an action type the switch does not support).  *)
 
-BadAct == 65000
 BufErrs(x) == ErrAlts(x, ET.badreq, <<7, 8>>)   \* BUFFER_EMPTY | BUFFER_UNKNOWN
 
 \* answers to an action list [act] applied to a frame with ingress inp
@@ -228,7 +238,7 @@ PacketOut(x, src, act) ==
             /\ OccSlots # {}
             /\ LET s == MinOf(OccSlots) IN
                /\ ptx' = TxAfter(act, pool[s])
-               /\ pool' = [pool EXCEPT ![s] = 0]
+               /\ pool' = [pool EXCEPT ![s] = IF Rejects(act) THEN Limbo ELSE 0]
                /\ Log("PacketOut", "PacketOut-" \o src, [xid |-> x, src |-> src, slot |-> s, act |-> act],
                       ActOuts(x, act))
        [] src = "stale" ->
@@ -244,6 +254,10 @@ PacketOut(x, src, act) ==
 ----------------------------------------------------------------------------
 (* FLOW_MOD.  cmd: "add" | "addov" (add with CHECK_OVERLAP) | "mod" | "del" *)
 (* | "delall" | "badcmd" | "emerg" | "emergto" (emergency, nonzero timeout) *)
+(* | "emergrem" (emergency asking for a removal notice) | "addbad" (add of  *)
+(* a third flow whose action list holds an unsupported action: must be      *)
+(* refused; the adapter deletes that flow again right after the message, so *)
+(* whether a switch installed it anyway is not observed here).              *)
 (* f: the flow concerned; buf: "none" | "live" | "stale" | "bogus".         *)
 
 FlowMod(x, cmd, f, buf) ==
@@ -251,7 +265,8 @@ FlowMod(x, cmd, f, buf) ==
                slot |-> IF buf = "live" /\ OccSlots # {} THEN MinOf(OccSlots)
                         ELSE IF buf = "stale" /\ FreeSlots # {} THEN MinOf(FreeSlots)
                         ELSE IF buf = "bogus" THEN NB + 5 ELSE 0]
-      tag == IF buf \in {"stale", "bogus"} THEN "FlowMod-badbuf" ELSE "FlowMod-" \o cmd
+      tag == IF buf \in {"stale", "bogus"} THEN "FlowMod-badbuf"
+             ELSE IF cmd = "addbad" THEN "FlowMod-addbad-" \o buf ELSE "FlowMod-" \o cmd
       L(outs) == Log("FlowMod", tag, args, outs)
       \* the buffered frame is forwarded by the new flow's action
       UseBuf == CASE buf = "live" -> /\ ptx' = TxAfter(OutOf(f), pool[args.slot])
@@ -262,7 +277,8 @@ FlowMod(x, cmd, f, buf) ==
   /\ CfgUnch /\ UNCHANGED <<look, mat, prx, down>>
   /\ (buf = "live" => OccSlots # {})
   /\ (buf = "stale" => FreeSlots # {})
-  /\ (buf # "none" => cmd = "add" /\ (f \in fs \/ Cardinality(fs) < MaxEntries))
+  /\ (buf # "none" => \/ cmd = "add" /\ (f \in fs \/ Cardinality(fs) < MaxEntries)
+                      \/ cmd = "addbad" /\ buf = "live")
   /\ CASE cmd = "add" ->
             IF f \notin fs /\ Cardinality(fs) >= MaxEntries
             THEN /\ UNCHANGED <<fs, fpk, ptx, pool>>
@@ -301,6 +317,13 @@ FlowMod(x, cmd, f, buf) ==
        [] cmd = "emerg" ->     \* emergency flows are not supported by this switch
             /\ UNCHANGED <<fs, fpk, ptx, pool>>
             /\ L(ErrAlts(x, ET.flowmod, <<0, 2, 5>>))             \* ALL_TABLES_FULL | EPERM | UNSUPPORTED
+       [] cmd = "emergrem" ->
+            /\ UNCHANGED <<fs, fpk, ptx, pool>>
+            /\ L(ErrAlts(x, ET.flowmod, <<2, 0, 5>>))             \* EPERM | ALL_TABLES_FULL | UNSUPPORTED
+       [] cmd = "addbad" ->    \* refused whole: no flow; a buffer it names is in limbo
+            /\ UNCHANGED <<fs, fpk, ptx>>
+            /\ pool' = IF buf = "live" THEN [pool EXCEPT ![args.slot] = Limbo] ELSE pool
+            /\ L(ErrAlts(x, ET.badact, <<0, 2>>) \o ErrAlts(x, ET.flowmod, <<5>>))  \* BAD_TYPE | BAD_VENDOR | UNSUPPORTED
        [] cmd = "emergto" ->
             /\ UNCHANGED <<fs, fpk, ptx, pool>>
             /\ L(ErrAlts(x, ET.flowmod, <<3, 0, 2, 5>>))          \* BAD_EMERG_TIMEOUT (or as above)
@@ -410,10 +433,11 @@ Step(x) ==
   \/ Vendor(x)
   \/ BadType(x)
   \/ \E a \in PoActs : PacketOut(x, "data", a)
-  \/ \E a \in (IF Thin THEN {2} ELSE {1, 2, 0}) : PacketOut(x, "live", a)  \* (what a rejected action list does to the buffer is C18's)
+  \/ \E a \in (IF Thin THEN {2, BadAct} ELSE PoActs) : PacketOut(x, "live", a)
   \/ \E src \in {"stale", "bogus"} : PacketOut(x, src, 2)
   \/ \E c \in {"add", "addov", "mod", "del"}, f \in TFlows : FlowMod(x, c, f, "none")
-  \/ \E c \in {"delall", "badcmd", "emerg", "emergto"} : FlowMod(x, c, "f1", "none")
+  \/ \E c \in {"delall", "badcmd", "emerg", "emergto", "emergrem", "addbad"} : FlowMod(x, c, "f1", "none")
+  \/ FlowMod(x, "addbad", "f1", "live")
   \/ \E b \in {"live", "stale", "bogus"} : FlowMod(x, "add", "f1", b)
   \/ \E p \in TPorts, dn \in BOOLEAN : PortMod(x, "set", p, dn)
   \/ PortMod(x, "badport", 1, FALSE)
@@ -448,7 +472,7 @@ TypeOK == /\ ml \in MissLens /\ fl \in {0, 1}
           /\ look \in Nat /\ mat \in Nat /\ mat <= look
           /\ prx \in [Ports -> Nat] /\ ptx \in [Ports -> Nat]
           /\ down \in [Ports -> BOOLEAN]
-          /\ pool \in [1..NB -> 0..NP]
+          /\ pool \in [1..NB -> 0..(NP + 1)]
           /\ Cardinality(fs) <= MaxEntries
           /\ \A f \in Flows : f \notin fs => fpk[f] = 0
 
@@ -469,7 +493,8 @@ PAnsweredOnce(e) ==
 \* its xid; a valid message produces nothing at all (the packet-in of Rx is
 \* not the output of a controller message)
 InvalidTags == {"Vendor", "BadType", "PacketOut-badbuf", "FlowMod-badbuf", "FlowMod-badcmd",
-                "FlowMod-emerg", "FlowMod-emergto", "PortMod-badport", "PortMod-badhw"}
+                "FlowMod-emerg", "FlowMod-emergto", "FlowMod-emergrem", "FlowMod-addbad-none",
+                "FlowMod-addbad-live", "PortMod-badport", "PortMod-badhw"}
 Rejectable(e) == \/ e.tag \in InvalidTags
                  \/ e.a = "PacketOut" /\ e.args.act \in {Absent, BadAct}
                  \/ e.tag \in {"FlowMod-add", "FlowMod-addov", "FlowMod-mod"}   \* table full / overlap
